@@ -1,9 +1,9 @@
-(* Model of network/src/reliable_sender.rs `Connection` (one peer) and its safety properties (C14). *)
+(* Invariant and theorems about the model of network/src/reliable_sender.rs (ReliableDefs.v): property C14. *)
 From Coq Require Import List NArith Lia Bool Sorted ZifyN ZifyBool.
+From HS Require Import ReliableDefs.
 Import ListNotations.
 Open Scope N_scope.
 
-Definition memN (a : N) (l : list N) : bool := existsb (N.eqb a) l.
 Lemma memN_in a l : memN a l = true <-> In a l.
 Proof.
   unfold memN. rewrite existsb_exists. split.
@@ -11,81 +11,6 @@ Proof.
   - intros H. exists a. split; auto. apply N.eqb_refl.
 Qed.
 
-(* messages are named by their hand-over index *)
-Record RS := mkRS {
-  buf : list N;          (* `buffer`: still to (re)transmit, FIFO *)
-  pend : list N;         (* `pending_replies`: written on this connection, no reply yet, FIFO *)
-  up : bool;             (* inside keep_alive *)
-  cancelled : list N;    (* handles dropped by the caller (environment) *)
-  next : N;              (* next hand-over index *)
-  conn : N               (* number of the current / last connection *)
-}.
-
-Inductive ev :=
-| ENew (f : option nat)      (* a message arrives on the channel; f: the write that fails in the following drain *)
-| EConnOk (f : option nat)   (* TcpStream::connect succeeded *)
-| EConnFail
-| EAck (f : option nat)      (* a reply frame was read *)
-| EReadErr                   (* the stream ended or errored *)
-| ECancel (id : N).          (* the caller dropped a handle *)
-
-Inductive out := OFrame (c id : N) | OResolve (id : N).
-
-(* the `while let Some(..) = self.buffer.pop_front()` loop; returns (buf, pend, frames, failed) *)
-Fixpoint drain (f : option nat) (cn : list N) (b p : list N) (fr : list N) : list N * list N * list N * bool :=
-  match b with
-  | [] => (b, p, fr, false)
-  | x :: r =>
-      if memN x cn then drain f cn r p fr                 (* handler.is_closed(): skip *)
-      else match f with
-           | Some O => (x :: r, p, fr, true)               (* writer.send failed: push_front, break *)
-           | Some (S k) => drain (Some k) cn r (p ++ [x]) (fr ++ [x])
-           | None => drain None cn r (p ++ [x]) (fr ++ [x])
-           end
-  end.
-
-Definition after_drain (s : RS) (f : option nat) (b p : list N) : RS * list out :=
-  match drain f (cancelled s) b p [] with
-  | (b', p', fr, failed) =>
-      let o := map (OFrame (conn s)) fr in
-      if failed
-      then (mkRS (p' ++ b') [] false (cancelled s) (next s) (conn s), o)   (* pending pushed back in front *)
-      else (mkRS b' p' true (cancelled s) (next s) (conn s), o)
-  end.
-
-Definition step (s : RS) (e : ev) : RS * list out :=
-  match e with
-  | ENew f =>
-      let id := next s in
-      let s1 := mkRS (buf s) (pend s) (up s) (cancelled s) (next s + 1) (conn s) in
-      if up s then after_drain s1 f (buf s ++ [id]) (pend s)
-      else (mkRS (filter (fun x => negb (memN x (cancelled s))) (buf s ++ [id])) (pend s) false
-                 (cancelled s) (next s + 1) (conn s), [])
-  | EConnOk f =>
-      if up s then (s, [])
-      else after_drain (mkRS (buf s) [] true (cancelled s) (next s) (conn s + 1)) f (buf s) []
-  | EConnFail => (s, [])
-  | EAck f =>
-      if up s then
-        match pend s with
-        | [] => (mkRS (buf s) [] false (cancelled s) (next s) (conn s), [])     (* UnexpectedAck *)
-        | x :: r =>
-            let o := if memN x (cancelled s) then [] else [OResolve x] in
-            let '(s', o') := after_drain s f (buf s) r in (s', o ++ o')
-        end
-      else (s, [])
-  | EReadErr =>
-      if up s then (mkRS (pend s ++ buf s) [] false (cancelled s) (next s) (conn s), []) else (s, [])
-  | ECancel id => (mkRS (buf s) (pend s) (up s) (id :: cancelled s) (next s) (conn s), [])
-  end.
-
-Definition init : RS := mkRS [] [] false [] 0 0.
-
-Fixpoint run (s : RS) (es : list ev) : RS * list out :=
-  match es with
-  | [] => (s, [])
-  | e :: r => let '(s1, o1) := step s e in let '(s2, o2) := run s1 r in (s2, o1 ++ o2)
-  end.
 
 (* ---------- invariant: pend ++ buf is the hand-over order restricted to what is still owed ---------- *)
 Definition Inv (s : RS) : Prop :=
@@ -287,3 +212,863 @@ Proof.
 Qed.
 
 Print Assumptions step_inv.
+
+(* ====================================================================================================== *)
+(* C14 theorems over all event sequences                                                                    *)
+(* ====================================================================================================== *)
+
+Definition owed (s : RS) : list N := pend s ++ buf s.
+(* while connected, the send loop has emptied the buffer *)
+Definition U (s : RS) : Prop := up s = true -> buf s = [].
+Definition Good (s : RS) : Prop := Inv s /\ U s.
+
+Lemma run_app s es1 es2 :
+  run s (es1 ++ es2) =
+  let '(s1, o1) := run s es1 in let '(s2, o2) := run s1 es2 in (s2, o1 ++ o2).
+Proof.
+  revert s. induction es1 as [|e r IH]; intros s; simpl.
+  - destruct (run s es2) as [s2 o2]. reflexivity.
+  - destruct (step s e) as [s1 o1]. rewrite IH. destruct (run s1 r) as [s2 o2].
+    destruct (run s2 es2) as [s3 o3]. rewrite app_assoc. reflexivity.
+Qed.
+
+(* a sharper description of the send loop: the frames written are b minus cancelled entries, up to the failure *)
+Lemma drain_spec2 cn : forall b f p fr b' p' fr' failed,
+  drain f cn b p fr = (b', p', fr', failed) ->
+  exists sent,
+    p' = p ++ sent /\ fr' = fr ++ sent /\ (forall x, In x sent -> ~ In x cn) /\
+    subrm cn b (sent ++ b') /\ (failed = false -> b' = []).
+Proof.
+  induction b as [|x r IH]; intros f p fr b' p' fr' failed H; simpl in H.
+  - inversion H; subst. exists []. rewrite !app_nil_r. repeat split; try tauto. constructor.
+  - destruct (memN x cn) eqn:Em.
+    + apply IH in H. destruct H as [sent [A [B [D [E F]]]]]. exists sent. repeat split; auto.
+      apply subrm_drop; [apply memN_in; exact Em|exact E].
+    + assert (Hn : ~ In x cn) by (intro Hin; apply memN_in in Hin; congruence).
+      destruct f as [[|k]|].
+      * inversion H; subst. exists []. rewrite !app_nil_r. repeat split; try tauto; try discriminate. apply subrm_refl.
+      * apply IH in H. destruct H as [sent [A [B [D [E F]]]]].
+        exists (x :: sent). rewrite <- !app_assoc in *. simpl in *. repeat split; auto.
+        -- intros y [<-|Hy]; auto.
+        -- constructor. exact E.
+      * apply IH in H. destruct H as [sent [A [B [D [E F]]]]].
+        exists (x :: sent). rewrite <- !app_assoc in *. simpl in *. repeat split; auto.
+        -- intros y [<-|Hy]; auto.
+        -- constructor. exact E.
+Qed.
+
+(* state after a send loop: either still connected with everything written, or down with everything owed in buf *)
+Definition Post (s' : RS) (p sent b' : list N) : Prop :=
+  (up s' = true /\ pend s' = p ++ sent /\ buf s' = [] /\ b' = []) \/
+  (up s' = false /\ pend s' = [] /\ buf s' = p ++ sent ++ b').
+
+Lemma after_drain_spec s f b p s' o :
+  after_drain s f b p = (s', o) ->
+  exists sent b',
+    o = map (OFrame (conn s)) sent /\ cancelled s' = cancelled s /\ next s' = next s /\ conn s' = conn s /\
+    subrm (cancelled s) b (sent ++ b') /\ (forall x, In x sent -> ~ In x (cancelled s)) /\ Post s' p sent b'.
+Proof.
+  unfold after_drain. destruct (drain f (cancelled s) b p []) as [[[b' p'] fr] failed] eqn:Ed.
+  apply drain_spec2 in Ed. destruct Ed as [sent [A [B [D [E F]]]]]. simpl in B. subst fr p'.
+  intros H. exists sent, b'. destruct failed; inversion H; subst; simpl; repeat split; auto.
+  - right. simpl. rewrite <- app_assoc. auto.
+  - left. simpl. rewrite (F eq_refl). auto.
+Qed.
+
+(* ---------- every step has one of eight shapes ---------- *)
+Inductive Shape (s : RS) : ev -> RS -> list out -> Prop :=
+| ShNewUp f sent b' s' :
+    up s = true -> buf s = [] ->
+    subrm (cancelled s) [next s] (sent ++ b') -> (forall x, In x sent -> ~ In x (cancelled s)) ->
+    cancelled s' = cancelled s -> next s' = next s + 1 -> conn s' = conn s ->
+    Post s' (pend s) sent b' ->
+    Shape s (ENew f) s' (map (OFrame (conn s)) sent)
+| ShNewDown f :
+    up s = false -> pend s = [] ->
+    Shape s (ENew f)
+          (mkRS (filter (fun x => negb (memN x (cancelled s))) (buf s ++ [next s])) [] false
+                (cancelled s) (next s + 1) (conn s)) []
+| ShConn f sent b' s' :
+    up s = false -> pend s = [] ->
+    subrm (cancelled s) (buf s) (sent ++ b') -> (forall x, In x sent -> ~ In x (cancelled s)) ->
+    cancelled s' = cancelled s -> next s' = next s -> conn s' = conn s + 1 ->
+    Post s' [] sent b' ->
+    Shape s (EConnOk f) s' (map (OFrame (conn s + 1)) sent)
+| ShNop e : ack_of s e = [] -> Shape s e s []
+| ShAckEmpty f :
+    up s = true -> pend s = [] -> buf s = [] ->
+    Shape s (EAck f) (mkRS [] [] false (cancelled s) (next s) (conn s)) []
+| ShAck f x r :
+    up s = true -> pend s = x :: r -> buf s = [] ->
+    Shape s (EAck f) (mkRS [] r true (cancelled s) (next s) (conn s))
+          (if memN x (cancelled s) then [] else [OResolve x])
+| ShReadErr :
+    up s = true -> buf s = [] ->
+    Shape s EReadErr (mkRS (pend s) [] false (cancelled s) (next s) (conn s)) []
+| ShCancel id :
+    Shape s (ECancel id) (mkRS (buf s) (pend s) (up s) (id :: cancelled s) (next s) (conn s)) [].
+
+Lemma step_shape s e s' o : Good s -> step s e = (s', o) -> Shape s e s' o.
+Proof.
+  intros [[Hs [Hn Hu]] HU] H. destruct e as [f|f| |f| |id]; simpl in H.
+  - destruct (up s) eqn:Eu.
+    + pose proof (HU Eu) as Hb. rewrite Hb in H. simpl in H.
+      apply after_drain_spec in H. simpl in H.
+      destruct H as [sent [b' [-> [Ec [En [Ecn [Sub [Nc P]]]]]]]].
+      eapply ShNewUp; eauto.
+    + rewrite (Hu eq_refl) in H. inversion H; subst. apply ShNewDown; auto.
+  - destruct (up s) eqn:Eu.
+    + inversion H; subst. apply ShNop. reflexivity.
+    + apply after_drain_spec in H. simpl in H.
+      destruct H as [sent [b' [-> [Ec [En [Ecn [Sub [Nc P]]]]]]]].
+      eapply ShConn; eauto.
+  - inversion H; subst. apply ShNop. reflexivity.
+  - destruct (up s) eqn:Eu.
+    + pose proof (HU Eu) as Hb. destruct (pend s) as [|x r] eqn:Ep.
+      * inversion H; subst. rewrite Hb. apply ShAckEmpty; auto.
+      * rewrite Hb in H. unfold after_drain in H. simpl in H. rewrite app_nil_r in H.
+        inversion H; subst. apply ShAck; auto.
+    + inversion H; subst. apply ShNop. simpl. rewrite Eu. reflexivity.
+  - destruct (up s) eqn:Eu.
+    + pose proof (HU Eu) as Hb. inversion H; subst. rewrite Hb, app_nil_r. apply ShReadErr; auto.
+    + inversion H; subst. apply ShNop. reflexivity.
+  - inversion H; subst. apply ShCancel.
+Qed.
+
+Lemma good_init : Good init.
+Proof. split; [split; [constructor|split; [intros x []|reflexivity]]|intros H; reflexivity]. Qed.
+
+Lemma good_step s e s' o : Good s -> step s e = (s', o) -> Good s'.
+Proof.
+  intros G H. split; [eapply step_inv; [apply G|exact H]|].
+  pose proof (step_shape _ _ _ _ G H) as Sh. destruct G as [_ HU].
+  inversion Sh; subst; unfold U; simpl; auto; try discriminate.
+  - destruct H7 as [[_ [_ [B _]]]|[B _]]; [auto|congruence].
+  - destruct H7 as [[_ [_ [B _]]]|[B _]]; [auto|congruence].
+Qed.
+
+Lemma good_run es : forall s s' o, Good s -> run s es = (s', o) -> Good s'.
+Proof.
+  induction es as [|e r IH]; intros s s' o G H; simpl in H.
+  - inversion H; subst. exact G.
+  - destruct (step s e) as [s1 o1] eqn:E1. destruct (run s1 r) as [s2 o2] eqn:E2. inversion H; subst.
+    eapply IH; [eapply good_step; eauto|exact E2].
+Qed.
+
+Theorem reachable_good es s o : run init es = (s, o) -> Good s.
+Proof. apply good_run. exact good_init. Qed.
+
+(* ---------- monotone parts of the state ---------- *)
+Lemma step_mono s e s' o : Good s -> step s e = (s', o) ->
+  next s <= next s' /\ (forall x, In x (cancelled s) -> In x (cancelled s')) /\ conn s <= conn s'.
+Proof.
+  intros G H. pose proof (step_shape _ _ _ _ G H) as Sh.
+  clear H. destruct Sh as [f sent b' s' Hup Hbuf Sub Nc Ec En Ecn P | f Hup Hp | f sent b' s' Hup Hp Sub Nc Ec En Ecn P | e Hack | f Hup Hp Hbuf | f x0 r Hup Hp Hbuf | Hup Hbuf | id]; simpl; repeat split; auto; try lia; try (intros y Hy; congruence).
+Qed.
+
+Lemma run_mono es : forall s s' o, Good s -> run s es = (s', o) ->
+  next s <= next s' /\ (forall x, In x (cancelled s) -> In x (cancelled s')) /\ conn s <= conn s'.
+Proof.
+  induction es as [|e r IH]; intros s s' o G H; simpl in H.
+  - inversion H; subst. repeat split; auto; lia.
+  - destruct (step s e) as [s1 o1] eqn:E1. destruct (run s1 r) as [s2 o2] eqn:E2. inversion H; subst.
+    destruct (step_mono _ _ _ _ G E1) as [A [B C]].
+    destruct (IH _ _ _ (good_step _ _ _ _ G E1) E2) as [A' [B' C']]. repeat split; auto; lia.
+Qed.
+
+(* a freshly handed-over id is owed unless already cancelled *)
+Lemma step_new s e s' o : Good s -> step s e = (s', o) ->
+  forall x, next s <= x -> x < next s' -> ~ In x (cancelled s') -> In x (owed s').
+Proof.
+  intros G H x H1 H2 Hc. pose proof (step_shape _ _ _ _ G H) as Sh. unfold owed. clear H.
+  destruct Sh as [f sent b' s' Hup Hbuf Sub Nc Ec En Ecn P | f Hup Hp | f sent b' s' Hup Hp Sub Nc Ec En Ecn P | e Hack | f Hup Hp Hbuf | f x0 r Hup Hp Hbuf | Hup Hbuf | id]; simpl in *; try lia.
+  - assert (x = next s) by lia. subst x.
+    assert (Hin : In (next s) (sent ++ b')).
+    { eapply subrm_keepall; [exact Sub|left; reflexivity|congruence]. }
+    destruct P as [[_ [-> [-> ->]]]|[_ [-> ->]]].
+    + rewrite !app_nil_r in *. apply in_or_app. right. exact Hin.
+    + simpl. apply in_or_app. right. exact Hin.
+  - assert (x = next s) by lia. subst x. apply filter_In. split; [apply in_or_app; right; left; reflexivity|].
+    apply negb_true_iff. destruct (memN (next s) (cancelled s)) eqn:Em; [apply memN_in in Em; contradiction|reflexivity].
+Qed.
+
+(* ---------- (a) no loss ---------- *)
+Lemma no_loss_gen es : forall s s' o, Good s -> run s es = (s', o) ->
+  forall x, (In x (owed s) \/ next s <= x) -> x < next s' -> ~ In x (cancelled s') -> ~ In (OResolve x) o ->
+  In x (owed s').
+Proof.
+  induction es as [|e r IH]; intros s s' o G H x Hx Hlt Hc Hr; simpl in H.
+  - inversion H; subst. destruct Hx as [Hx|Hx]; [exact Hx|lia].
+  - destruct (step s e) as [s1 o1] eqn:E1. destruct (run s1 r) as [s2 o2] eqn:E2. inversion H; subst.
+    pose proof (good_step _ _ _ _ G E1) as G1.
+    destruct (run_mono _ _ _ _ G1 E2) as [_ [Cm _]].
+    assert (Hc1 : ~ In x (cancelled s1)) by (intro Hin; apply Hc; apply Cm; exact Hin).
+    apply (IH _ _ _ G1 E2); auto.
+    + destruct Hx as [Hx|Hx].
+      * destruct (step_inv s e s1 o1 (proj1 G) E1) as [_ [Keep _]].
+        destruct (Keep x Hx Hc1) as [K|K]; [left; exact K|].
+        exfalso. apply Hr. apply in_or_app. left. exact K.
+      * destruct (N.lt_ge_cases x (next s1)) as [L|L]; [left; exact (step_new s e s1 o1 G E1 x Hx L Hc1)|right; exact L].
+    + intro Hin. apply Hr. apply in_or_app. right. exact Hin.
+Qed.
+
+Theorem c14_no_loss es s o : run init es = (s, o) ->
+  forall x, x < next s -> ~ In x (cancelled s) -> ~ In (OResolve x) o -> In x (pend s ++ buf s).
+Proof.
+  intros H x Hlt Hc Hr. apply (no_loss_gen es init s o good_init H x); auto. right. simpl. lia.
+Qed.
+
+(* ---------- (d) nothing is written for an id after its cancel event ---------- *)
+Lemma no_frame_cancelled es : forall s s' o, Good s -> run s es = (s', o) ->
+  forall x, In x (cancelled s) -> forall c, ~ In (OFrame c x) o.
+Proof.
+  induction es as [|e r IH]; intros s s' o G H x Hx c Hin; simpl in H.
+  - inversion H; subst. destruct Hin.
+  - destruct (step s e) as [s1 o1] eqn:E1. destruct (run s1 r) as [s2 o2] eqn:E2. inversion H; subst.
+    destruct (step_mono _ _ _ _ G E1) as [_ [Cm _]].
+    apply in_app_or in Hin. destruct Hin as [Hin|Hin].
+    + destruct (step_inv s e s1 o1 (proj1 G) E1) as [_ [_ [_ Fr]]].
+      destruct (Fr c x Hin) as [Hn _]. apply Hn. apply Cm. exact Hx.
+    + eapply (IH _ _ _ (good_step _ _ _ _ G E1) E2 x); eauto.
+Qed.
+
+Theorem c14_no_retransmit_after_cancel es1 x es2 s o :
+  run init (es1 ++ ECancel x :: es2) = (s, o) ->
+  exists s1 o1 s2 o2, run init es1 = (s1, o1) /\ run s1 (ECancel x :: es2) = (s2, o2) /\ o = o1 ++ o2 /\ s = s2 /\
+    forall c, ~ In (OFrame c x) o2.
+Proof.
+  rewrite run_app. destruct (run init es1) as [s1 o1] eqn:E1.
+  destruct (run s1 (ECancel x :: es2)) as [s2 o2] eqn:E2. intros H. inversion H; subst.
+  exists s1, o1, s, o2. repeat split; auto. intros c.
+  pose proof (reachable_good _ _ _ E1) as G1. simpl in E2.
+  destruct (run _ es2) as [s3 o3] eqn:E3. inversion E2; subst. simpl.
+  eapply (no_frame_cancelled es2 _ _ _ (good_step s1 (ECancel x) _ [] G1 eq_refl) E3 x). left. reflexivity.
+Qed.
+
+(* ---------- (c) pairing ---------- *)
+Theorem c14_pairing es s o e s' o' x :
+  run init es = (s, o) -> step s e = (s', o') -> In (OResolve x) o' ->
+  exists f r, e = EAck f /\ up s = true /\ pend s = x :: r /\ ~ In x (cancelled s) /\ o' = [OResolve x] /\ pend s' = r.
+Proof.
+  intros H E Hin. pose proof (reachable_good _ _ _ H) as G.
+  pose proof (step_shape _ _ _ _ G E) as Sh.
+  clear E. destruct Sh as [f sent b' s' Hup Hbuf Sub Nc Ec En Ecn P | f Hup Hp | f sent b' s' Hup Hp Sub Nc Ec En Ecn P | e Hack | f Hup Hp Hbuf | f x0 r Hup Hp Hbuf | Hup Hbuf | id]; try (destruct Hin; fail);
+    try (apply in_map_iff in Hin; destruct Hin as [y [Hy _]]; discriminate).
+  destruct (memN x0 (cancelled s)) eqn:Em; [destruct Hin|]. destruct Hin as [Hin|[]]. inversion Hin; subst x0.
+  exists f, r. repeat split; auto. intro Hc. apply memN_in in Hc. congruence.
+Qed.
+
+(* output projections distribute over concatenation *)
+Lemma frames_on_app c o1 o2 : frames_on c (o1 ++ o2) = frames_on c o1 ++ frames_on c o2.
+Proof.
+  induction o1 as [|[c' x|x] r IH]; simpl; auto. destruct (c' =? c); simpl; rewrite IH; reflexivity.
+Qed.
+Lemma frame_ids_app o1 o2 : frame_ids (o1 ++ o2) = frame_ids o1 ++ frame_ids o2.
+Proof. induction o1 as [|[c' x|x] r IH]; simpl; auto. rewrite IH. reflexivity. Qed.
+Lemma resolves_app o1 o2 : resolves (o1 ++ o2) = resolves o1 ++ resolves o2.
+Proof. induction o1 as [|[c' x|x] r IH]; simpl; auto. rewrite IH. reflexivity. Qed.
+Lemma frames_on_map c c' l : frames_on c (map (OFrame c') l) = if c' =? c then l else [].
+Proof.
+  induction l as [|x r IH]; simpl; [destruct (c' =? c); reflexivity|].
+  rewrite IH. destruct (c' =? c); reflexivity.
+Qed.
+Lemma frame_ids_map c l : frame_ids (map (OFrame c) l) = l.
+Proof. induction l as [|x r IH]; simpl; auto. rewrite IH. reflexivity. Qed.
+Lemma resolves_map c l : resolves (map (OFrame c) l) = [].
+Proof. induction l; simpl; auto. Qed.
+Lemma acked_on_app c k1 k2 : acked_on c (k1 ++ k2) = acked_on c k1 ++ acked_on c k2.
+Proof. unfold acked_on. rewrite filter_app, map_app. reflexivity. Qed.
+Lemma acked_resolved_app k1 k2 : acked_resolved (k1 ++ k2) = acked_resolved k1 ++ acked_resolved k2.
+Proof. unfold acked_resolved. rewrite filter_app, map_app. reflexivity. Qed.
+
+(* counting invariant: on each connection the replies consumed so far match the first frames written on it, and
+   on the live connection what is left is exactly pend *)
+Definition CInv (s : RS) (T : list out) (K : list (N * N * bool)) : Prop :=
+  (forall c, exists rest, frames_on c T = acked_on c K ++ rest /\ (c = conn s -> up s = true -> rest = pend s)) /\
+  (forall c, conn s < c -> frames_on c T = []) /\
+  resolves T = acked_resolved K.
+
+Lemma cinv_step s e s' o T K : Good s -> step s e = (s', o) -> CInv s T K -> CInv s' (T ++ o) (K ++ ack_of s e).
+Proof.
+  intros G H [C1 [C2 C3]]. pose proof (step_shape _ _ _ _ G H) as Sh.
+  assert (Hacked0 : forall c, conn s < c -> acked_on c K = []).
+  { intros c Hc. destruct (C1 c) as [rest [E _]]. rewrite (C2 c Hc) in E. symmetry in E.
+    apply app_eq_nil in E. tauto. }
+  clear H. destruct Sh as [f sent b' s' Hup Hbuf Sub Nc Ec En Ecn P | f Hup Hp | f sent b' s' Hup Hp Sub Nc Ec En Ecn P | e Hack | f Hup Hp Hbuf | f x0 r Hup Hp Hbuf | Hup Hbuf | id].
+  - (* ENew while connected *)
+    replace (ack_of s (ENew f)) with (@nil (N * N * bool)) by reflexivity. rewrite app_nil_r.
+    split; [|split].
+    + intros c. destruct (C1 c) as [rest [E Pr]]. rewrite frames_on_app, frames_on_map.
+      destruct (conn s =? c) eqn:Eqc.
+      * apply N.eqb_eq in Eqc. subst c. exists (rest ++ sent). rewrite E, app_assoc. split; [reflexivity|].
+        intros _ Hup'. rewrite (Pr eq_refl Hup).
+        destruct P as [[_ [-> _]]|[Hd _]]; [reflexivity|congruence].
+      * exists rest. rewrite app_nil_r. split; [exact E|]. intros Hc. rewrite Ecn in Hc. subst c.
+        rewrite N.eqb_refl in Eqc. discriminate.
+    + intros c Hc. rewrite Ecn in Hc. rewrite frames_on_app, frames_on_map, (C2 c Hc).
+      destruct (conn s =? c) eqn:Eqc; [apply N.eqb_eq in Eqc; lia|reflexivity].
+    + rewrite resolves_app, resolves_map, app_nil_r. exact C3.
+  - (* ENew while down *)
+    replace (ack_of s (ENew f)) with (@nil (N * N * bool)) by reflexivity. rewrite !app_nil_r.
+    split; [|split]; simpl; auto. intros c. destruct (C1 c) as [rest [E Pr]]. exists rest. split; [exact E|discriminate].
+  - (* connect *)
+    replace (ack_of s (EConnOk f)) with (@nil (N * N * bool)) by reflexivity. rewrite app_nil_r.
+    split; [|split].
+    + intros c. destruct (C1 c) as [rest [E Pr]]. rewrite frames_on_app, frames_on_map.
+      destruct (conn s + 1 =? c) eqn:Eqc.
+      * apply N.eqb_eq in Eqc. subst c. rewrite (C2 (conn s + 1)) in * by lia.
+        rewrite (Hacked0 (conn s + 1)) in * by lia. exists sent. split; [reflexivity|].
+        intros _ Hup'. destruct P as [[_ [-> _]]|[Hd _]]; [reflexivity|congruence].
+      * exists rest. rewrite app_nil_r. split; [exact E|]. intros Hc. rewrite Ecn in Hc. subst c.
+        rewrite N.eqb_refl in Eqc. discriminate.
+    + intros c Hc. rewrite Ecn in Hc. rewrite frames_on_app, frames_on_map, (C2 c) by lia.
+      destruct (conn s + 1 =? c) eqn:Eqc; [apply N.eqb_eq in Eqc; lia|reflexivity].
+    + rewrite resolves_app, resolves_map, app_nil_r. exact C3.
+  - (* no-op *)
+    rewrite Hack, !app_nil_r. split; [|split]; auto.
+  - (* unexpected reply *)
+    simpl ack_of. rewrite Hup, Hp. rewrite !app_nil_r. split; [|split]; simpl; auto.
+    intros c. destruct (C1 c) as [rest [E Pr]]. exists rest. split; [exact E|discriminate].
+  - (* reply *)
+    simpl ack_of. rewrite Hup, Hp. split; [|split]; simpl.
+    + intros c. destruct (C1 c) as [rest [E Pr]]. rewrite frames_on_app, acked_on_app.
+      unfold acked_on at 2. simpl. destruct (conn s =? c) eqn:Eqc.
+      * apply N.eqb_eq in Eqc. subst c. rewrite (Pr eq_refl Hup), Hp in E. exists r. simpl. split.
+        -- rewrite E. destruct (memN x0 (cancelled s)); simpl; rewrite ?app_nil_r, <- app_assoc; reflexivity.
+        -- reflexivity.
+      * exists rest. simpl. rewrite app_nil_r. split.
+        -- rewrite E. destruct (memN x0 (cancelled s)); simpl; rewrite ?app_nil_r; reflexivity.
+        -- intros Hc. subst c. rewrite N.eqb_refl in Eqc. discriminate.
+    + intros c Hc. rewrite frames_on_app, (C2 c Hc). destruct (memN x0 (cancelled s)); reflexivity.
+    + rewrite resolves_app, acked_resolved_app, C3. unfold acked_resolved at 2. simpl.
+      destruct (memN x0 (cancelled s)); reflexivity.
+  - (* read error *)
+    replace (ack_of s EReadErr) with (@nil (N * N * bool)) by reflexivity. rewrite !app_nil_r.
+    split; [|split]; simpl; auto.
+    intros c. destruct (C1 c) as [rest [E Pr]]. exists rest. split; [exact E|discriminate].
+  - (* cancel *)
+    replace (ack_of s (ECancel id)) with (@nil (N * N * bool)) by reflexivity. rewrite !app_nil_r.
+    split; [|split]; simpl; auto.
+Qed.
+
+Lemma cinv_run es : forall s s' o T K, Good s -> run s es = (s', o) -> CInv s T K ->
+  CInv s' (T ++ o) (K ++ run_acks s es).
+Proof.
+  induction es as [|e r IH]; intros s s' o T K G H C; simpl in H.
+  - inversion H; subst. simpl. rewrite !app_nil_r. exact C.
+  - destruct (step s e) as [s1 o1] eqn:E1. destruct (run s1 r) as [s2 o2] eqn:E2. inversion H; subst.
+    simpl. rewrite E1. simpl. rewrite !app_assoc. eapply IH; [eapply good_step; eauto|exact E2|].
+    apply cinv_step; auto.
+Qed.
+
+(* counting form of the pairing: on every connection c the ids whose reply was consumed are, in order and
+   without gap, the first frames written on c; the handles completed are exactly those consumed replies whose
+   handle had not been dropped; on the live connection the frames not yet answered are exactly pend *)
+Theorem c14_pairing_count es s o :
+  run init es = (s, o) ->
+  let K := run_acks init es in
+  resolves o = acked_resolved K /\
+  forall c, exists rest,
+    frames_on c o = acked_on c K ++ rest /\ (c = conn s -> up s = true -> rest = pend s).
+Proof.
+  intros H K.
+  assert (C0 : CInv init [] []).
+  { split; [|split]; simpl; auto. intros c. exists []. split; [reflexivity|discriminate]. }
+  pose proof (cinv_run es init s o [] [] good_init H C0) as [C1 [_ C3]]. simpl in *. split; auto.
+Qed.
+
+(* the k-th reply consumed on connection c is for the k-th frame written on c *)
+Corollary c14_pairing_nth es s o c k x :
+  run init es = (s, o) -> nth_error (acked_on c (run_acks init es)) k = Some x ->
+  nth_error (frames_on c o) k = Some x.
+Proof.
+  intros H Hn. destruct (c14_pairing_count es s o H) as [_ P]. destruct (P c) as [rest [E _]].
+  rewrite E. rewrite nth_error_app1; [exact Hn|]. apply nth_error_Some. congruence.
+Qed.
+
+(* ---------- (b) order ---------- *)
+(* every transmission is a retransmission or carries an id greater than all ids transmitted before *)
+Inductive FO : list N -> Prop :=
+| FO_nil : FO []
+| FO_snoc l x : FO l -> (In x l \/ forall y, In y l -> y < x) -> FO (l ++ [x]).
+
+Lemma frames_on_in_ids c T x : In x (frames_on c T) -> In x (frame_ids T).
+Proof.
+  induction T as [|[c' y|y] r IH]; simpl; auto.
+  destruct (c' =? c); simpl; intros H; [destruct H as [H|H]; auto|auto].
+Qed.
+
+Lemma order_extend : forall sent T p b',
+  StronglySorted N.lt (p ++ sent ++ b') -> (forall y, In y p -> In y T) ->
+  (forall x y, In x T -> In y (p ++ sent ++ b') -> y < x -> In y T) -> FO T ->
+  FO (T ++ sent) /\ (forall x y, In x (T ++ sent) -> In y (p ++ sent ++ b') -> y < x -> In y (T ++ sent)).
+Proof.
+  induction sent as [|x r IH]; intros T p b' Hs H1 H2 HF.
+  - rewrite app_nil_r. split; auto.
+  - assert (Hlt : forall y, In y (p ++ (x :: r) ++ b') -> y < x -> In y p).
+    { intros y Hy Hyx. apply in_app_or in Hy. destruct Hy as [Hy|Hy]; [exact Hy|exfalso].
+      apply sorted_app_inv in Hs. destruct Hs as [_ [Hs _]]. simpl in Hs, Hy. inversion Hs; subst.
+      destruct Hy as [<-|Hy]; [lia|]. rewrite Forall_forall in H4. specialize (H4 y Hy). lia. }
+    assert (Hx : In x (p ++ (x :: r) ++ b')) by (apply in_or_app; right; left; reflexivity).
+    replace (T ++ x :: r) with ((T ++ [x]) ++ r) by (rewrite <- app_assoc; reflexivity).
+    replace (p ++ (x :: r) ++ b') with ((p ++ [x]) ++ r ++ b') in * by (rewrite <- app_assoc; reflexivity).
+    apply IH.
+    + exact Hs.
+    + intros y Hy. apply in_or_app. apply in_app_or in Hy. destruct Hy as [Hy|[<-|[]]]; [left; auto|right; left; reflexivity].
+    + intros x' y Hx' Hy Hlt'. apply in_or_app. apply in_app_or in Hx'. destruct Hx' as [Hx'|[<-|[]]].
+      * left. eapply H2; eauto.
+      * left. apply H1. apply Hlt; auto.
+    + constructor; [exact HF|]. destruct (in_dec N.eq_dec x T) as [Hi|Hni]; [left; exact Hi|right].
+      intros t Ht. destruct (N.lt_trichotomy t x) as [L|[L|L]]; [exact L|subst; contradiction|].
+      exfalso. apply Hni. eapply H2; eauto.
+Qed.
+
+Definition OInv (s : RS) (T : list out) : Prop :=
+  (forall x, In x (frame_ids T) -> x < next s) /\
+  (forall y, In y (pend s) -> In y (frame_ids T)) /\
+  (forall x y, In x (frame_ids T) -> In y (owed s) -> y < x -> In y (frame_ids T)) /\
+  FO (frame_ids T) /\
+  (forall c, StronglySorted N.lt (frames_on c T)) /\
+  (forall c, conn s < c -> frames_on c T = []).
+
+Lemma post_owed s' p sent b' : Post s' p sent b' -> owed s' = p ++ sent ++ b'.
+Proof.
+  unfold owed. intros [[_ [-> [-> ->]]]|[_ [-> ->]]]; [rewrite !app_nil_r|]; reflexivity.
+Qed.
+Lemma post_pend s' p sent b' y : Post s' p sent b' -> In y (pend s') -> In y (p ++ sent).
+Proof. intros [[_ [-> _]]|[_ [-> _]]]; [auto|intros []]. Qed.
+
+Lemma subrm_sub_sorted cn l sent b' : subrm cn l (sent ++ b') -> StronglySorted N.lt l -> StronglySorted N.lt sent.
+Proof. intros H Hs. apply (subrm_sorted _ _ _ H) in Hs. apply sorted_app_inv in Hs. tauto. Qed.
+
+Lemma oinv_step s e s' o T : Good s -> step s e = (s', o) -> OInv s T -> OInv s' (T ++ o).
+Proof.
+  intros G H [O0 [O1 [O2 [O3 [O4 O5]]]]]. pose proof (step_shape _ _ _ _ G H) as Sh.
+  pose proof (good_step _ _ _ _ G H) as [[Hs' _] _]. destruct G as [[Hs [Hn Hu]] HU]. clear H.
+  destruct Sh as [f sent b' s' Hup Hbuf Sub Nc Ec En Ecn P | f Hup Hp | f sent b' s' Hup Hp Sub Nc Ec En Ecn P
+                 | e Hack | f Hup Hp Hbuf | f x0 r Hup Hp Hbuf | Hup Hbuf | id];
+    unfold OInv; rewrite ?app_nil_r.
+  - (* ENew while connected *)
+    pose proof (post_owed _ _ _ _ P) as Eo. unfold owed in Eo. rewrite Eo in Hs'.
+    assert (Hsub : forall y, In y (sent ++ b') -> y = next s).
+    { intros y Hy. apply (subrm_in _ _ _ _ Sub) in Hy. destruct Hy as [<-|[]]. reflexivity. }
+    rewrite frame_ids_app, frame_ids_map.
+    destruct (order_extend sent (frame_ids T) (pend s) b' Hs' O1) as [F' K'].
+    { intros x y Hx Hy Hlt. apply in_app_or in Hy. destruct Hy as [Hy|Hy].
+      - apply (O2 x y Hx); auto. unfold owed. apply in_or_app. left. exact Hy.
+      - apply Hsub in Hy. subst y. specialize (O0 x Hx). lia. }
+    { exact O3. }
+    split; [|split; [|split; [|split; [|split]]]].
+    + intros x Hx. apply in_app_or in Hx. destruct Hx as [Hx|Hx]; [specialize (O0 x Hx); lia|].
+      rewrite En. rewrite (Hsub x) by (apply in_or_app; left; exact Hx). lia.
+    + intros y Hy. apply (post_pend _ _ _ _ _ P) in Hy. apply in_or_app. apply in_app_or in Hy.
+      destruct Hy as [Hy|Hy]; auto.
+    + unfold owed. rewrite Eo. exact K'.
+    + exact F'.
+    + intros c. rewrite frames_on_app, frames_on_map. destruct (conn s =? c); [|rewrite app_nil_r; apply O4].
+      apply sorted_app_intro; [apply O4| |].
+      * eapply subrm_sub_sorted; [exact Sub|]. repeat constructor.
+      * intros x y Hx Hy. rewrite (Hsub y) by (apply in_or_app; left; exact Hy).
+        apply O0. eapply frames_on_in_ids; eauto.
+    + intros c Hc. rewrite Ecn in Hc. rewrite frames_on_app, frames_on_map, (O5 c Hc).
+      destruct (conn s =? c) eqn:Eqc; [apply N.eqb_eq in Eqc; lia|reflexivity].
+  - (* ENew while down *)
+    split; [|split; [|split; [|split; [|split]]]]; simpl; auto.
+    + intros x Hx. specialize (O0 x Hx). lia.
+    + intros y [].
+    + intros x y Hx Hy Hlt. unfold owed in Hy. simpl in Hy. apply filter_In in Hy. destruct Hy as [Hy _].
+      apply in_app_or in Hy. destruct Hy as [Hy|[<-|[]]].
+      * apply (O2 x y Hx); auto. unfold owed. apply in_or_app. right. exact Hy.
+      * specialize (O0 x Hx). lia.
+  - (* connect *)
+    pose proof (post_owed _ _ _ _ P) as Eo. unfold owed in Eo. rewrite Eo in Hs'. simpl in Eo, Hs'.
+    rewrite frame_ids_app, frame_ids_map.
+    destruct (order_extend sent (frame_ids T) [] b' Hs') as [F' K'].
+    { intros y []. }
+    { intros x y Hx Hy Hlt. simpl in Hy. apply (subrm_in _ _ _ _ Sub) in Hy.
+      apply (O2 x y Hx); auto. unfold owed. apply in_or_app. right. exact Hy. }
+    { exact O3. }
+    split; [|split; [|split; [|split; [|split]]]].
+    + intros x Hx. rewrite En. apply in_app_or in Hx. destruct Hx as [Hx|Hx]; [apply O0; exact Hx|].
+      apply Hn. apply in_or_app. right. apply (subrm_in _ _ _ _ Sub). apply in_or_app. left. exact Hx.
+    + intros y Hy. apply (post_pend _ _ _ _ _ P) in Hy. simpl in Hy. apply in_or_app. right. exact Hy.
+    + unfold owed. rewrite Eo. exact K'.
+    + exact F'.
+    + intros c. rewrite frames_on_app, frames_on_map. destruct (conn s + 1 =? c) eqn:Eqc; [|rewrite app_nil_r; apply O4].
+      apply N.eqb_eq in Eqc. subst c. rewrite (O5 (conn s + 1)) by lia. simpl.
+      eapply subrm_sub_sorted; [exact Sub|]. rewrite Hp in Hs. exact Hs.
+    + intros c Hc. rewrite Ecn in Hc. rewrite frames_on_app, frames_on_map, (O5 c) by lia.
+      destruct (conn s + 1 =? c) eqn:Eqc; [apply N.eqb_eq in Eqc; lia|reflexivity].
+  - (* no-op *)
+    repeat split; auto.
+  - (* unexpected reply *)
+    split; [|split; [|split; [|split; [|split]]]]; simpl; auto; try (intros y []; fail).
+    intros x y Hx [].
+  - (* reply *)
+    assert (E : frame_ids (T ++ (if memN x0 (cancelled s) then [] else [OResolve x0])) = frame_ids T).
+    { rewrite frame_ids_app. destruct (memN x0 (cancelled s)); simpl; rewrite app_nil_r; reflexivity. }
+    assert (E2 : forall c, frames_on c (T ++ (if memN x0 (cancelled s) then [] else [OResolve x0])) = frames_on c T).
+    { intros c. rewrite frames_on_app. destruct (memN x0 (cancelled s)); simpl; rewrite app_nil_r; reflexivity. }
+    split; [|split; [|split; [|split; [|split]]]]; simpl; rewrite ?E; auto.
+    + intros y Hy. apply O1. rewrite Hp. right. exact Hy.
+    + intros x y Hx Hy Hlt. unfold owed in Hy. simpl in Hy. rewrite app_nil_r in Hy.
+      apply (O2 x y Hx); auto. unfold owed. rewrite Hp. right. apply in_or_app. left. exact Hy.
+    + intros c. rewrite E2. apply O4.
+    + intros c Hc. rewrite E2. apply O5. exact Hc.
+  - (* read error *)
+    split; [|split; [|split; [|split; [|split]]]]; simpl; auto; try (intros y []; fail).
+  - (* cancel *)
+    split; [|split; [|split; [|split; [|split]]]]; simpl; auto.
+Qed.
+
+Lemma oinv_run es : forall s s' o T, Good s -> run s es = (s', o) -> OInv s T -> OInv s' (T ++ o).
+Proof.
+  induction es as [|e r IH]; intros s s' o T G H C; simpl in H.
+  - inversion H; subst. rewrite app_nil_r. exact C.
+  - destruct (step s e) as [s1 o1] eqn:E1. destruct (run s1 r) as [s2 o2] eqn:E2. inversion H; subst.
+    rewrite app_assoc. eapply IH; [eapply good_step; eauto|exact E2|]. eapply oinv_step; eauto.
+Qed.
+
+(* from FO to the computable statement: the list of first occurrences is strictly increasing *)
+Lemma firsts_acc_in seen : forall l y, In y (firsts_acc l seen) -> In y seen.
+Proof.
+  intros l. revert l. induction seen as [|a r IH]; intros l y; simpl; [tauto|].
+  destruct (memN a l); [intros H; right; eapply IH; eauto|].
+  intros [<-|H]; [left; reflexivity|right; eapply IH; eauto].
+Qed.
+
+Lemma firsts_acc_snoc : forall l seen x,
+  firsts_acc seen (l ++ [x]) = firsts_acc seen l ++ (if memN x seen || memN x l then [] else [x]).
+Proof.
+  induction l as [|a r IH]; intros seen x; simpl.
+  - rewrite orb_false_r. destruct (memN x seen); reflexivity.
+  - destruct (memN a seen) eqn:Ea.
+    + rewrite IH. f_equal. destruct (N.eqb_spec x a) as [->|Hne]; simpl; [rewrite Ea; reflexivity|reflexivity].
+    + simpl. rewrite IH. f_equal. simpl.
+      destruct (x =? a); simpl; [rewrite orb_true_r; reflexivity|reflexivity].
+Qed.
+
+Lemma FO_firsts l : FO l -> StronglySorted N.lt (firsts l).
+Proof.
+  induction 1 as [|l x HF IH Hx]; [constructor|].
+  unfold firsts in *. rewrite firsts_acc_snoc. simpl.
+  destruct (memN x l) eqn:Em; [rewrite app_nil_r; exact IH|].
+  destruct Hx as [Hx|Hx]; [apply memN_in in Hx; congruence|].
+  apply sorted_app_intro; [exact IH|repeat constructor|].
+  intros a b Ha [<-|[]]. apply Hx. eapply firsts_acc_in. exact Ha.
+Qed.
+
+(* (b): on every connection the frames are for ids in increasing hand-over order (in particular no id twice on one
+   connection); over the whole run, first transmissions are in hand-over order; no frame carries an id not yet
+   handed over *)
+Theorem c14_order es s o :
+  run init es = (s, o) ->
+  (forall c, StronglySorted N.lt (frames_on c o)) /\
+  StronglySorted N.lt (firsts (frame_ids o)) /\
+  (forall x, In x (frame_ids o) -> x < next s).
+Proof.
+  intros H.
+  assert (O : OInv init []).
+  { split; [|split; [|split; [|split; [|split]]]]; simpl; try tauto; try constructor. }
+  pose proof (oinv_run es init s o [] good_init H O) as [O0 [_ [_ [O3 [O4 _]]]]]. simpl in *.
+  split; [exact O4|]. split; [apply FO_firsts; exact O3|exact O0].
+Qed.
+
+(* the same in "no overtaking" form: once an id has been transmitted, a smaller id is never transmitted for the
+   first time *)
+Corollary c14_order_no_overtake es s o l1 x l2 :
+  run init es = (s, o) -> frame_ids o = l1 ++ x :: l2 -> In x l1 \/ forall y, In y l1 -> y < x.
+Proof.
+  intros H E.
+  assert (O : OInv init []).
+  { split; [|split; [|split; [|split; [|split]]]]; simpl; try tauto; try constructor. }
+  pose proof (oinv_run es init s o [] good_init H O) as [_ [_ [_ [O3 _]]]]. simpl in O3.
+  revert l1 x l2 E. induction O3 as [|l z HF IH Hz]; intros l1 x l2 E.
+  - destruct l1; discriminate.
+  - destruct (rev l2) as [|w l2'] eqn:Er.
+    + assert (l2 = []) by (rewrite <- (rev_involutive l2), Er; reflexivity). subst l2.
+      apply app_inj_tail in E. destruct E as [-> ->]. exact Hz.
+    + assert (E2 : l2 = rev l2' ++ [w]) by (rewrite <- (rev_involutive l2), Er; reflexivity). subst l2.
+      replace (l1 ++ x :: rev l2' ++ [w]) with ((l1 ++ x :: rev l2') ++ [w]) in E by (rewrite <- app_assoc; reflexivity).
+      apply app_inj_tail in E. destruct E as [E _]. eapply IH. exact E.
+Qed.
+
+(* ---------- (e) progress ---------- *)
+Definition notcn (s : RS) (x : N) : bool := negb (memN x (cancelled s)).
+(* ids still owed whose handle is kept *)
+Definition live (s : RS) : list N := filter (notcn s) (pend s ++ buf s).
+
+Lemma drain_none cn : forall b p fr,
+  drain None cn b p fr =
+  ([], p ++ filter (fun x => negb (memN x cn)) b, fr ++ filter (fun x => negb (memN x cn)) b, false).
+Proof.
+  induction b as [|x r IH]; intros p fr; simpl.
+  - rewrite !app_nil_r. reflexivity.
+  - destruct (memN x cn); simpl; [apply IH|]. rewrite IH, <- !app_assoc. reflexivity.
+Qed.
+
+Lemma filter_idem {A} (f : A -> bool) l : filter f (filter f l) = filter f l.
+Proof.
+  induction l as [|a r IH]; simpl; auto. destruct (f a) eqn:Ea; simpl; [rewrite Ea, IH; reflexivity|exact IH].
+Qed.
+
+(* one reply per frame still unanswered resolves them all, in order *)
+Lemma acks_all : forall l s, up s = true -> buf s = [] -> pend s = l ->
+  run s (repeat (EAck None) (length l)) =
+  (mkRS [] [] true (cancelled s) (next s) (conn s), map OResolve (filter (notcn s) l)).
+Proof.
+  induction l as [|x r IH]; intros s Hup Hbuf Hp; simpl.
+  - destruct s; simpl in *; subst; reflexivity.
+  - rewrite Hup, Hp, Hbuf. unfold after_drain. simpl. rewrite app_nil_r.
+    rewrite IH by reflexivity. simpl. unfold notcn. simpl.
+    destruct (memN x (cancelled s)); reflexivity.
+Qed.
+
+(* From any reachable state: a successful connect whose writes all succeed, followed by one reply per frame then
+   unanswered, completes the handle of every live id, in hand-over order, and leaves nothing owed. (If the
+   connection is already up, the connect event is a no-op and the frames have been written already.) *)
+Theorem c14_progress es s o :
+  run init es = (s, o) ->
+  let '(s1, o1) := step s (EConnOk None) in
+  let '(s2, o2) := run s1 (repeat (EAck None) (length (pend s1))) in
+  resolves (o1 ++ o2) = live s /\
+  pend s2 ++ buf s2 = [] /\
+  (forall x, In x (live s) -> (up s = true /\ In x (pend s)) \/ In (OFrame (conn s1) x) o1).
+Proof.
+  intros H. pose proof (reachable_good _ _ _ H) as [[Hs [Hn Hu]] HU]. simpl. unfold live.
+  destruct (up s) eqn:Eu.
+  - pose proof (HU Eu) as Hb. rewrite (acks_all (pend s) s Eu Hb eq_refl). simpl.
+    assert (R : forall l, resolves (map OResolve l) = l) by (induction l; simpl; congruence).
+    rewrite R, Hb, app_nil_r. repeat split; auto.
+    intros x Hx. left. apply filter_In in Hx. tauto.
+  - rewrite (Hu eq_refl). simpl. unfold after_drain. rewrite drain_none. simpl.
+    set (l := filter (fun x => negb (memN x (cancelled s))) (buf s)).
+    set (s1 := mkRS [] l true (cancelled s) (next s) (conn s + 1)).
+    rewrite (acks_all l s1 eq_refl eq_refl eq_refl). simpl.
+    assert (R : forall l, resolves (map OResolve l) = l) by (induction l0; simpl; congruence).
+    rewrite resolves_app, resolves_map, R. simpl.
+    assert (F : filter (notcn s1) l = l).
+    { unfold l, notcn. simpl. apply filter_idem. }
+    rewrite F. repeat split; auto.
+    intros x Hx. right. apply in_map. exact Hx.
+Qed.
+
+(* hence: if from some point on one connection lives long enough, every id handed over and not cancelled is
+   delivered and its handle resolves *)
+Corollary c14_at_least_once es s o x :
+  run init es = (s, o) -> x < next s -> ~ In x (cancelled s) -> ~ In (OResolve x) o ->
+  let '(s1, o1) := step s (EConnOk None) in
+  let '(s2, o2) := run s1 (repeat (EAck None) (length (pend s1))) in
+  In x (resolves (o1 ++ o2)).
+Proof.
+  intros H Hlt Hc Hr. pose proof (c14_no_loss es s o H x Hlt Hc Hr) as Hin.
+  pose proof (c14_progress es s o H) as P.
+  destruct (step s (EConnOk None)) as [s1 o1]. destruct (run s1 _) as [s2 o2].
+  destruct P as [-> _]. unfold live. apply filter_In. split; [exact Hin|].
+  unfold notcn. destruct (memN x (cancelled s)) eqn:Em; [apply memN_in in Em; contradiction|reflexivity].
+Qed.
+
+(* hypotheses are satisfiable and the statements are not vacuous: two messages buffered while down, the second
+   cancelled, connect, a third message, one reply, connection lost, reconnect *)
+Example c14_example :
+  run_obs [ENew None; ENew None; EConnFail; ECancel 1; EConnOk None; ENew None; EAck None; EReadErr; EConnOk None]
+  = ([[0; 2]; [2]], [0]).
+Proof. vm_compute. reflexivity. Qed.
+
+Print Assumptions c14_no_loss.
+Print Assumptions c14_order.
+Print Assumptions c14_order_no_overtake.
+Print Assumptions c14_pairing.
+Print Assumptions c14_pairing_count.
+Print Assumptions c14_pairing_nth.
+Print Assumptions c14_no_retransmit_after_cancel.
+Print Assumptions c14_progress.
+Print Assumptions c14_at_least_once.
+
+(* ---------- a write lost in the socket buffers is indistinguishable from a failed write ---------- *)
+(* The scripted peer of the socket harness only knows which frames it RECEIVED before it closed a connection. Frames
+   that the real sender wrote successfully into the socket buffer but that the peer never took are, for the model,
+   writes that failed: the two differ only in cancelled entries left in `buf`, which no later behaviour depends on.
+   `beq` is that equivalence, `step_congr`/`run_congr` show it is a bisimulation with equal outputs, and
+   `c14_lost_write` relates the two explanations of an early close. *)
+Definition beq (s t : RS) : Prop :=
+  up s = up t /\ pend s = pend t /\ cancelled s = cancelled t /\ next s = next t /\ conn s = conn t /\
+  filter (notcn s) (buf s) = filter (notcn t) (buf t).
+
+Lemma beq_refl s : beq s s.
+Proof. repeat split. Qed.
+
+Definition ncl (cn : list N) (x : N) : bool := negb (memN x cn).
+
+Lemma drain_filter cn : forall b f p fr,
+  drain f cn (filter (ncl cn) b) p fr =
+  let '(b', p', fr', fl) := drain f cn b p fr in (filter (ncl cn) b', p', fr', fl).
+Proof.
+  induction b as [|x r IH]; intros f p fr; simpl; [reflexivity|]. unfold ncl at 1.
+  destruct (memN x cn) eqn:Em; simpl; [apply IH|]. rewrite Em.
+  destruct f as [[|k]|]; [|apply IH|apply IH].
+  simpl. unfold ncl. rewrite Em. reflexivity.
+Qed.
+
+Lemma drain_congr cn b1 b2 f p fr :
+  filter (ncl cn) b1 = filter (ncl cn) b2 ->
+  let '(b1', p1, fr1, fl1) := drain f cn b1 p fr in
+  let '(b2', p2, fr2, fl2) := drain f cn b2 p fr in
+  filter (ncl cn) b1' = filter (ncl cn) b2' /\ p1 = p2 /\ fr1 = fr2 /\ fl1 = fl2.
+Proof.
+  intros E. pose proof (drain_filter cn b1 f p fr) as H1. pose proof (drain_filter cn b2 f p fr) as H2.
+  rewrite E in H1. rewrite H2 in H1.
+  destruct (drain f cn b1 p fr) as [[[b1' p1] fr1] fl1]. destruct (drain f cn b2 p fr) as [[[b2' p2] fr2] fl2].
+  inversion H1; subst. auto.
+Qed.
+
+Lemma after_drain_congr s t f b1 b2 p :
+  cancelled s = cancelled t -> next s = next t -> conn s = conn t ->
+  filter (ncl (cancelled s)) b1 = filter (ncl (cancelled s)) b2 ->
+  beq (fst (after_drain s f b1 p)) (fst (after_drain t f b2 p)) /\
+  snd (after_drain s f b1 p) = snd (after_drain t f b2 p).
+Proof.
+  intros Ec En Ecn E. unfold after_drain. rewrite <- Ec, <- En, <- Ecn.
+  pose proof (drain_congr (cancelled s) b1 b2 f p [] E) as D.
+  destruct (drain f (cancelled s) b1 p []) as [[[b1' p1] fr1] fl1].
+  destruct (drain f (cancelled s) b2 p []) as [[[b2' p2] fr2] fl2].
+  destruct D as [D1 [-> [-> ->]]]. destruct fl2; simpl; (split; [|reflexivity]); unfold beq, notcn; simpl; repeat split; auto.
+  rewrite !filter_app. fold (ncl (cancelled s)). rewrite D1. reflexivity.
+Qed.
+
+Lemma filter_filter {A} (f g : A -> bool) l : filter f (filter g l) = filter (fun x => g x && f x) l.
+Proof.
+  induction l as [|a r IH]; simpl; auto. destruct (g a); simpl; [destruct (f a); rewrite IH; reflexivity|exact IH].
+Qed.
+
+Lemma step_congr s t e : beq s t ->
+  beq (fst (step s e)) (fst (step t e)) /\ snd (step s e) = snd (step t e).
+Proof.
+  intros B. pose proof B as [Eu [Ep [Ec [En [Ecn Eb]]]]]. unfold notcn in Eb. rewrite <- Ec in Eb. fold (ncl (cancelled s)) in Eb.
+  destruct e as [f|f| |f| |id]; simpl; rewrite <- ?Eu, <- ?Ep, <- ?Ec, <- ?En, <- ?Ecn.
+  - destruct (up s).
+    + apply after_drain_congr; simpl; auto. rewrite !filter_app. fold (ncl (cancelled s)). rewrite Eb. reflexivity.
+    + split; [|reflexivity]. unfold beq, notcn; simpl. repeat split; auto.
+      fold (ncl (cancelled s)). rewrite !filter_idem, !filter_app, Eb. reflexivity.
+  - destruct (up s) eqn:Eus.
+    + split; [exact B|reflexivity].
+    + apply after_drain_congr; simpl; auto.
+  - split; [exact B|reflexivity].
+  - destruct (up s) eqn:Eus.
+    + destruct (pend s) as [|x r].
+      * split; [|reflexivity]. unfold beq, notcn; simpl. fold (ncl (cancelled s)). repeat split; auto.
+      * pose proof (after_drain_congr s t f (buf s) (buf t) r Ec En Ecn Eb) as [A A2].
+        destruct (after_drain s f (buf s) r) as [s1 o1]. destruct (after_drain t f (buf t) r) as [t1 o2].
+        simpl in *. subst o2. split; auto.
+    + split; [exact B|reflexivity].
+  - destruct (up s) eqn:Eus.
+    + split; [|reflexivity]. unfold beq, notcn; simpl. fold (ncl (cancelled s)). repeat split; auto.
+      rewrite !filter_app, Eb. reflexivity.
+    + split; [exact B|reflexivity].
+  - split; [|reflexivity]. unfold beq, notcn; simpl. repeat split; auto.
+    assert (F : forall l, filter (fun x => negb ((x =? id) || memN x (cancelled s))) l =
+                          filter (fun x => negb (x =? id)) (filter (ncl (cancelled s)) l)).
+    { intros l. rewrite filter_filter. apply filter_ext. intros a. unfold ncl.
+      destruct (a =? id), (memN a (cancelled s)); reflexivity. }
+    rewrite !F, Eb. reflexivity.
+Qed.
+
+Lemma run_congr es : forall s t, beq s t ->
+  beq (fst (run s es)) (fst (run t es)) /\ snd (run s es) = snd (run t es).
+Proof.
+  induction es as [|e r IH]; intros s t B; simpl; [auto|].
+  destruct (step_congr s t e B) as [B1 O1].
+  destruct (step s e) as [s1 o1]. destruct (step t e) as [t1 o2]. simpl in *. subst o2.
+  destruct (IH s1 t1 B1) as [B2 O2].
+  destruct (run s1 r) as [s2 o3]. destruct (run t1 r) as [t2 o4]. simpl in *. subst o4. auto.
+Qed.
+
+Lemma subrm_filter cn l l' : subrm cn l l' -> filter (ncl cn) l = filter (ncl cn) l'.
+Proof.
+  induction 1; simpl; auto.
+  - rewrite IHsubrm. reflexivity.
+  - unfold ncl at 1. apply memN_in in H. rewrite H. simpl. exact IHsubrm.
+Qed.
+
+Lemma filter_all {A} (f : A -> bool) l : (forall x, In x l -> f x = true) -> filter f l = l.
+Proof.
+  induction l as [|a r IH]; simpl; intros H; auto. rewrite (H a (or_introl eq_refl)), IH; auto.
+Qed.
+
+(* the same send loop with a write failing at index k, or with no failing write: once the connection has ended the two
+   states are equivalent, and the frames of the first are a prefix of the frames of the second *)
+Lemma after_drain_lost s k b p :
+  beq (fst (step (fst (after_drain s (Some k) b p)) EReadErr)) (fst (step (fst (after_drain s None b p)) EReadErr)) /\
+  exists rest, snd (after_drain s None b p) = snd (after_drain s (Some k) b p) ++ map (OFrame (conn s)) rest.
+Proof.
+  destruct (after_drain s (Some k) b p) as [s1 o1] eqn:E1.
+  apply after_drain_spec in E1. destruct E1 as [sent1 [b1 [-> [Ec1 [En1 [Ecn1 [Sub1 [Nc1 P1]]]]]]]].
+  unfold after_drain at 1 2. rewrite drain_none. fold (ncl (cancelled s)). simpl.
+  assert (F1 : filter (ncl (cancelled s)) b = sent1 ++ filter (ncl (cancelled s)) b1).
+  { rewrite (subrm_filter _ _ _ Sub1), filter_app. f_equal. apply filter_all.
+    intros x Hx. unfold ncl. destruct (memN x (cancelled s)) eqn:Em; [apply memN_in in Em; destruct (Nc1 x Hx Em)|reflexivity]. }
+  split.
+  - assert (G : forall l, filter (ncl (cancelled s)) l = filter (ncl (cancelled s)) (sent1 ++ b1) ->
+                filter (ncl (cancelled s)) (p ++ l) = filter (ncl (cancelled s)) ((p ++ filter (ncl (cancelled s)) b) ++ [])).
+    { intros l E. rewrite app_nil_r, !filter_app, filter_idem, E, (subrm_filter _ _ _ Sub1). reflexivity. }
+    destruct P1 as [[U1 [Pp1 [Pb1 Eb1]]]|[U1 [Pp1 Pb1]]]; rewrite U1; unfold beq, notcn; simpl;
+      rewrite ?Ec1, ?En1, ?Ecn1; fold (ncl (cancelled s)); repeat split; auto.
+    + rewrite Pp1, Pb1, app_nil_r. apply G. subst b1. rewrite app_nil_r. reflexivity.
+    + rewrite Pb1. apply G. reflexivity.
+  - exists (filter (ncl (cancelled s)) b1). rewrite F1, map_app. reflexivity.
+Qed.
+
+Lemma run_then_readerr s e : run s [e; EReadErr] = (fst (step (fst (step s e)) EReadErr), snd (step s e)).
+Proof. simpl. destruct (step s e) as [s1 o1]. simpl. destruct (up s1); simpl; rewrite ?app_nil_r; reflexivity. Qed.
+
+(* the event e with its failing-write index replaced *)
+Definition with_f (e : ev) (f : option nat) : ev :=
+  match e with ENew _ => ENew f | EConnOk _ => EConnOk f | EAck _ => EAck f | _ => e end.
+
+(* An event whose send loop has a failing write, followed by the end of the connection, leaves the sender in a state
+   equivalent to the same event with all writes succeeding followed by the end of the connection; the frames of the
+   first are a prefix of those of the second, the resolutions are the same, and every continuation produces the same
+   output from both. *)
+Theorem c14_lost_write s e k es :
+  let '(s1, o1) := run s [with_f e (Some k); EReadErr] in
+  let '(s2, o2) := run s [with_f e None; EReadErr] in
+  beq s1 s2 /\
+  resolves o1 = resolves o2 /\
+  (forall c, exists rest, frames_on c o2 = frames_on c o1 ++ rest) /\
+  snd (run s1 es) = snd (run s2 es).
+Proof.
+  assert (Main :
+    beq (fst (step (fst (step s (with_f e (Some k)))) EReadErr)) (fst (step (fst (step s (with_f e None))) EReadErr)) /\
+    resolves (snd (step s (with_f e (Some k)))) = resolves (snd (step s (with_f e None))) /\
+    (forall c, exists rest, frames_on c (snd (step s (with_f e None))) = frames_on c (snd (step s (with_f e (Some k)))) ++ rest)).
+  { destruct e as [f|f| |f| |id]; simpl with_f;
+      try (split; [apply beq_refl|split; [reflexivity|intros c; exists []; rewrite app_nil_r; reflexivity]]).
+    - (* ENew *)
+      simpl. destruct (up s).
+      + set (s0 := mkRS (buf s) (pend s) true (cancelled s) (next s + 1) (conn s)).
+        destruct (after_drain_lost s0 k (buf s ++ [next s]) (pend s)) as [A [rest R]].
+        split; [exact A|]. rewrite R. split.
+        * rewrite resolves_app, resolves_map, app_nil_r. reflexivity.
+        * intros c. rewrite frames_on_app. eexists. reflexivity.
+      + split; [apply beq_refl|split; [reflexivity|intros c; exists []; reflexivity]].
+    - (* EConnOk *)
+      simpl. destruct (up s).
+      + split; [apply beq_refl|split; [reflexivity|intros c; exists []; reflexivity]].
+      + set (s0 := mkRS (buf s) [] true (cancelled s) (next s) (conn s + 1)).
+        destruct (after_drain_lost s0 k (buf s) []) as [A [rest R]].
+        split; [exact A|]. rewrite R. split.
+        * rewrite resolves_app, resolves_map, app_nil_r. reflexivity.
+        * intros c. rewrite frames_on_app. eexists. reflexivity.
+    - (* EAck *)
+      simpl. destruct (up s); [|split; [apply beq_refl|split; [reflexivity|intros c; exists []; reflexivity]]].
+      destruct (pend s) as [|x r]; [split; [apply beq_refl|split; [reflexivity|intros c; exists []; reflexivity]]|].
+      destruct (after_drain_lost s k (buf s) r) as [A [rest R]].
+      destruct (after_drain s (Some k) (buf s) r) as [s1 o1]. destruct (after_drain s None (buf s) r) as [s2 o2].
+      simpl in *. split; [exact A|]. rewrite R. split.
+      * rewrite !resolves_app, resolves_map, app_nil_r. reflexivity.
+      * intros c. eexists. rewrite !frames_on_app, <- app_assoc. reflexivity. }
+  destruct Main as [A [R F]]. rewrite !run_then_readerr.
+  split; [exact A|]. split; [exact R|]. split; [exact F|]. apply run_congr. exact A.
+Qed.
+
+Print Assumptions c14_lost_write.
